@@ -14,6 +14,8 @@ import (
 type detOpts struct {
 	// exemptions of nondeterminism sources: key "caller|callee" -> reason
 	exempt map[string]string
+	// exemptFn: role-based exemption of a source call (reason, true) — decided from the code, not a table
+	exemptFn func(fn *ssa.Function, call ssa.CallInstruction, src string) (string, bool)
 	// stop pruning
 	stop func(*ssa.Function) bool
 }
@@ -77,6 +79,8 @@ func detScope(p *Prog, c *Check, rule string, roots []*ssa.Function, opts *detOp
 							key := shortFn(fn) + "|" + nm
 							if why, ok := opts.exempt[key]; ok {
 								c.Ok(rule+".src", key, p.siteOf(x), shortFn(fn), "call of "+nm, "reviewed exemption: "+why)
+							} else if why, ok := exemptByFn(opts, fn, x, nm); ok {
+								c.Ok(rule+".src", key, p.siteOf(x), shortFn(fn), "call of "+nm, "exemption with checked side conditions: "+why)
 							} else {
 								c.Fail(rule+".src", key, p.siteOf(x), shortFn(fn), "call of "+nm, "a nondeterminism source (clock/randomness/environment/introspection) is reachable from the scope's entry points")
 							}
@@ -524,4 +528,11 @@ func sortedBeforeUse(p *Prog, fn *ssa.Function, l *Loop, phi *ssa.Phi) bool {
 		}
 	}
 	return true
+}
+
+func exemptByFn(opts *detOpts, fn *ssa.Function, call ssa.CallInstruction, src string) (string, bool) {
+	if opts.exemptFn == nil {
+		return "", false
+	}
+	return opts.exemptFn(fn, call, src)
 }
